@@ -21,7 +21,8 @@ ASSUMPTIONS = [
     "every snapshot that it is exactly the bonded, non-jailed validators in (power desc, operator address asc) order",
     "ComputeMinPowerInTopN is an oracle input of this slice (the real function's value is fed to the model; C03 models it)",
     "messages are delivered with baseapp semantics; only accepted messages change the model state (their acceptance rules belong to C05/C10/C14)",
-    "sort.Slice is stable for n <= 12 (insertion sort); for more than 12 validators only tie-insensitive projections are compared",
+    "sort.Slice is stable for n <= 12 (insertion sort); for more than 12 validators only tie-insensitive projections are compared "
+    "and no validator-set cap is generated (the survivor among equal powers, hence possibly the launch outcome, depends on the tie order)",
     "tokens and min_stake are unbounded integers in the model (math.Int / uint64 in Go; values up to 2^64-1 are exercised); "
     "powers stay far below 2^63 and int64 overflow of powers is not modelled",
 ]
@@ -144,6 +145,15 @@ def gen_history(rng, big=False):
             else:
                 ops.append([14, [rng.randrange(nc)]])
         ops.append([15])
+    if big:
+        # above 12 validators Go's sort.Slice is not stable: which of several validators of equal power survives a
+        # validator-set cap (and with it whether a launch finds an active member) depends on the unmodelled tie order,
+        # so no set cap is used there (C04 covers the cap for n > 12 at function level, tie-insensitively)
+        for g in consumers:
+            g[1] = 0
+        for o in ops:
+            if o[0] == 10:
+                o[3] = 0
     return {"tokens": tokens, "max_vals": max_vals, "M": M, "consumers": consumers, "ops": ops}
 
 
